@@ -7,11 +7,16 @@ import Aiorpcx.Facts.C02
            member = `R:<id>` | `N` | `X:<id>`; id as in the C01 driver
            (`i<int>` `h<int>` `bT` `bF` `s<cp>.<cp>` `n` `u<tag>`);
            call = `<member index>:<encoded length of its response>` in completion order
-         `S <max> <len> <id>`  single request
+           (no id: the model answers under the id the member's item was bound to)
+         `S <max> <len> <member>`  single message (request / notification / invalid)
+         `T <isReq 0|1> <returnsMsg 0|1> <events>`  one `_throttled_request` task;
+           events = string over `r` (handler returns) `t` (timeout fires) `w` (write accepted)
     out: for `B`: `E[<entries>]` if the batch is rejected at once, else one token per call
          (`-` nothing returned, `[<entries>]` the batch response) or `.` when there is no call;
          entry = `e|r|b` `<member>@<id>` (error for invalid member / real result / too-large error)
-         for `S`: `r@<id>` or `b@<id>`.
+         for `S`: `r@<id>` | `b@<id>` | `e@<id>` | `none`
+         for `T`: the actions `s:v` `s:b` (send_result with the value / SERVER_BUSY) `w:v` `w:b`
+         (written), comma separated, `-` if none.
     The per-entry size increment comes from the generated facts. -/
 open Aiorpcx Aiorpcx.C01 Aiorpcx.C02
 
@@ -46,57 +51,69 @@ def parseMem (s : String) : Option Mem :=
     | ["X", i] => (parseId2 i).map .invalid
     | _ => none
 
-def showEntry : Entry (Nat × Nat) → String
+def showEntry : Entry Nat → String
   | .err m i => "e" ++ toString m ++ "@" ++ showId i
   | .res m i _ => "r" ++ toString m ++ "@" ++ showId i
   | .big m i => "b" ++ toString m ++ "@" ++ showId i
 
-def showEntries (es : List (Entry (Nat × Nat))) : String :=
+def showEntries (es : List (Entry Nat)) : String :=
   "[" ++ String.intercalate "," (es.map showEntry) ++ "]"
 
-def memId : Mem → Id
-  | .req i => i
-  | .invalid i => i
-  | .notif => .null
-
-def parseCall (ms : List Mem) (s : String) : Option (Call (Nat × Nat)) :=
+def parseCall (s : String) : Option (Call Nat) :=
   match s.splitOn ":" with
   | [i, l] =>
       match i.toNat?, l.toNat? with
-      | some idx, some len =>
-          match ms[idx]? with
-          | some m => some (idx, memId m, (idx, len))
-          | none => none
+      | some idx, some len => some (idx, len)
       | _, _ => none
   | _ => none
 
+def parseEv : Char → Option (Ev Nat)
+  | 'r' => some (.ret 0)
+  | 't' => some .timeout
+  | 'w' => some .written
+  | _ => none
+
+def showAct : Act Nat → String
+  | .sendResult (.value _) => "s:v"
+  | .sendResult .busy => "s:b"
+  | .wrote (.value _) => "w:v"
+  | .wrote .busy => "w:b"
+
 def handle (line : String) : String :=
   let inc := Facts.C02.sizeIncrement.getD 0
-  let encLen : Id → (Nat × Nat) → Nat := fun _ r => r.2
+  let encLen : Id → Nat → Nat := fun _ r => r
   match (line.splitOn " ").filter (· ≠ "") with
   | ["B", mx, mems, calls] =>
       match mx.toNat?, (mems.splitOn ",").mapM parseMem with
       | some max, some ms =>
-          let cs? := if calls == "-" then some [] else (calls.splitOn ",").mapM (parseCall ms)
+          let cs? := if calls == "-" then some [] else (calls.splitOn ",").mapM parseCall
           match cs? with
           | some cs =>
-              match receiveBatch (R := Nat × Nat) ms with
+              match receiveBatch (R := Nat) ms with
               | .errorBatch es => "E" ++ showEntries es
-              | .items _ b =>
+              | .items its b =>
                   if cs.isEmpty then "."
-                  else String.intercalate " " ((runCalls max inc encLen b cs).map fun
+                  else String.intercalate " " ((runCalls max inc encLen its b cs).map fun
                     | none => "-"
                     | some es => showEntries es)
           | none => "bad-op"
       | _, _ => "bad-op"
-  | ["S", mx, len, i] =>
-      match mx.toNat?, len.toNat?, parseId2 i with
-      | some max, some l, some id =>
-          match sendResultSingle max encLen id (0, l) with
-          | .res _ i _ => "r@" ++ showId i
-          | .big _ i => "b@" ++ showId i
-          | .err _ i => "e@" ++ showId i
+  | ["S", mx, len, m] =>
+      match mx.toNat?, len.toNat?, parseMem m with
+      | some max, some l, some mem =>
+          match repliesSingle max encLen mem l with
+          | [] => "none"
+          | [.res _ i _] => "r@" ++ showId i
+          | [.big _ i] => "b@" ++ showId i
+          | [.err _ i] => "e@" ++ showId i
+          | _ => "bad-model"
       | _, _, _ => "bad-op"
+  | ["T", isReq, msg, evs] =>
+      match evs.toList.mapM parseEv with
+      | some es =>
+          let acts := (trun (isReq == "1") (msg == "1") .handling es).2
+          if acts.isEmpty then "-" else String.intercalate "," (acts.map showAct)
+      | none => "bad-op"
   | _ => "bad-op"
 
 def main : IO Unit := Hex.lineLoop handle
